@@ -1024,6 +1024,7 @@ int KSI_AggregationHashChain_aggregate(KSI_AggregationHashChain *aggr, int start
 	KSI_ERR_clearErrors(aggr->ctx);
 	if (aggr->outputHash == NULL || startLevel != aggr->inputLevel) {
 		KSI_DataHash_free(aggr->outputHash);
+		aggr->outputHash = NULL;
 
 		if (aggr->aggrHashId == NULL || aggr->chain == NULL || aggr->inputHash == NULL) {
 			KSI_pushError(aggr->ctx, res = KSI_INVALID_STATE, NULL);
